@@ -113,4 +113,12 @@ theorem F_encode : ∀ (fs : List Frame), (∀ f ∈ fs, f.WF) →
           simp only [List.cons_append, List.cons.injEq] at hp
           exact hmax p' g hp.2
 
+/-- the frame on which the unrepaired reader failed (two adjacent 0x1A data bytes, i.e. four on
+    the wire) followed by a short frame -/
+def witness : List Frame :=
+  [⟨0x33, [0x1A, 0x1A, 0x42, 0x43, 0x44, 0x45, 0x46, 0x47, 0x48, 0x49, 0x4a, 0x4b, 0x4c, 0x4d, 0x4e, 0x4f,
+           0x50, 0x51, 0x52, 0x53, 0x54]⟩,
+   ⟨0x32, [1, 2, 3, 4, 5, 6, 7, 8, 9, 10, 11, 12, 13, 14]⟩,
+   ⟨0x32, [1, 2, 3, 4, 5, 6, 7, 8, 9, 10, 11, 12, 13, 14]⟩]
+
 end Rs1090.Proofs.Beast
